@@ -425,6 +425,27 @@ class PythonRegex(regex.Regex):
         self._python_regex = "".join(regex_temp)
 
     def _replace_shortcuts(self):
-        for to_replace, replacement in SHORTCUTS.items():
-            self._python_regex = self._python_regex.replace(to_replace,
-                                                            replacement)
+        res = []
+        in_brackets = False
+        escaped = False
+        for symbol in self._python_regex:
+            if escaped:
+                escaped = False
+                shortcut = SHORTCUTS.get("\\" + symbol)
+                if symbol == " ":
+                    # An escaped space is a space
+                    res[-1] = SHORTCUTS[" "]
+                    continue
+                if shortcut is not None:
+                    # Inside a set, only the members of the shortcut are added
+                    res[-1] = shortcut[1:-1] if in_brackets else shortcut
+                    continue
+            elif symbol == "\\":
+                # An escaped backslash does not start a shortcut
+                escaped = True
+            elif symbol == "[":
+                in_brackets = True
+            elif symbol == "]":
+                in_brackets = False
+            res.append(SHORTCUTS[" "] if symbol == " " else symbol)
+        self._python_regex = "".join(res)
